@@ -37,7 +37,11 @@ def f_and(*fs):
             return FALSE
         if f == TRUE:
             continue
-        out.append(f)
+        if f[0] == 'and':
+            out.extend(x for x in f[1:] if x not in out)
+            continue
+        if f not in out:
+            out.append(f)
     if not out:
         return TRUE
     return out[0] if len(out) == 1 else ('and',) + tuple(out)
@@ -50,7 +54,11 @@ def f_or(*fs):
             return TRUE
         if f == FALSE:
             continue
-        out.append(f)
+        if f[0] == 'or':
+            out.extend(x for x in f[1:] if x not in out)
+            continue
+        if f not in out:
+            out.append(f)
     if not out:
         return FALSE
     return out[0] if len(out) == 1 else ('or',) + tuple(out)
@@ -154,9 +162,13 @@ class PathCond(Domain):
         return (TRUE, (), frozenset())
 
     def copy(self, s): return s
-    def join(self, a, b): return (f_or(a[0], b[0]), tuple(x for x in a[1] if x in b[1]), a[2] & b[2])
+    def join(self, a, b):
+        common = _common(a[0], b[0])
+        pc = common if common != TRUE else f_or(a[0], b[0])
+        return (pc, tuple(x for x in a[1] if x in b[1]), a[2] & b[2])
     def leq(self, a, b): return a == b
-    def widen(self, old, new): return (TRUE, (), old[2] & new[2])
+    def widen(self, old, new):
+        return (_common(old[0], new[0]), tuple(x for x in old[1] if x in new[1]), old[2] & new[2])
 
     def transfer(self, st, s):
         pc, env, facts = s
@@ -196,6 +208,18 @@ class PathCond(Domain):
 
     def bind(self, target, s, source=None):
         return s
+
+
+def _conjuncts(f) -> list:
+    if f == TRUE:
+        return []
+    return list(f[1:]) if f[0] == 'and' else [f]
+
+
+def _common(a, b):
+    """the conjuncts two path formulas share (sound weakening of either)"""
+    cb = _conjuncts(b)
+    return f_and(*[c for c in _conjuncts(a) if c in cb])
 
 
 def _weaken(pc, name: str):
